@@ -698,6 +698,86 @@ def callbacks_table(objs_cb, objs_rec, fns):
     return rows
 
 
+# ---------------------------------------------------------------------------------------------- byte_buf.c: reserve_smart
+def _const_eval(e):
+    e = _strip(e)
+    v = _lit(e)
+    if v is not None:
+        return v
+    if e.get("kind") == "BinaryOperator" and e.get("opcode") in ("*", "+", "-", "<<"):
+        a, b = _const_eval(e["inner"][0]), _const_eval(e["inner"][1])
+        if a is None or b is None:
+            return None
+        return {"*": a * b, "+": a + b, "-": a - b, "<<": a << b}[e["opcode"]]
+    return None
+
+
+def reserve_smart_function(repo, inc):
+    """`aws_byte_buf_reserve_smart` as the capacity the buffer has afterwards: `buffer->capacity` lifted to a parameter, the
+    early `return AWS_OP_SUCCESS` -> the unchanged capacity, `return aws_byte_buf_reserve(buffer, n)` -> n (reserve
+    reallocates to exactly n when n > capacity); file-scope constants replaced by their values; the two math.inl helpers
+    it calls are translated alongside"""
+    src = os.path.join(repo, "source", "byte_buf.c")
+    tu = f'#include "{src}"\n'
+    fns = {}
+    for pre in ("aws_add_size_saturating", "aws_add_u64_saturating", "aws_max_size", "aws_min_size", "aws_byte_buf_reserve_smart"):
+        fns.update(cfun.dump_functions(tu, pre, inc))
+    if "aws_byte_buf_reserve_smart" not in fns:
+        raise GenError("aws_byte_buf_reserve_smart not found in byte_buf.c")
+    globs = {}
+    for o in _objs(tu, "s_", inc):
+        if o.get("kind") == "VarDecl" and o.get("inner"):
+            v = _const_eval([c for c in o["inner"] if isinstance(c, dict)][-1])
+            if v is not None:
+                globs[o["name"]] = v
+    SZ = {"qualType": "size_t", "desugaredQualType": "unsigned long"}
+    fn = fns["aws_byte_buf_reserve_smart"]
+    if [p["name"] for p in _params(fn)] != ["buffer", "requested_capacity"]:
+        raise GenError("aws_byte_buf_reserve_smart: unexpected parameter list")
+    cap = {"kind": "DeclRefExpr", "type": dict(SZ), "referencedDecl": {"kind": "ParmVarDecl", "name": "capacity", "type": dict(SZ)}}
+    reserves = []
+
+    def rw(n):
+        k = n.get("kind")
+        if k == "MemberExpr" and n.get("name") == "capacity" and _ref_name(n["inner"][0]) == "buffer":
+            return dict(cap)
+        if k == "DeclRefExpr" and n.get("referencedDecl", {}).get("kind") == "VarDecl" and n["referencedDecl"]["name"] in globs:
+            return {"kind": "IntegerLiteral", "type": dict(SZ), "value": str(globs[n["referencedDecl"]["name"]])}
+        if k == "ReturnStmt":
+            e = _strip(n["inner"][0])
+            if _lit(e) == 0 or (e.get("kind") == "DeclRefExpr" and e["referencedDecl"]["name"] == "AWS_OP_SUCCESS"):
+                return {"kind": "ReturnStmt", "inner": [dict(cap)]}
+            if _callee(e) == "aws_byte_buf_reserve" and _ref_name(e["inner"][1]) == "buffer":
+                reserves.append(1)
+                return {"kind": "ReturnStmt", "inner": [rw(e["inner"][2])]}
+            raise GenError("aws_byte_buf_reserve_smart: a return that is neither success nor aws_byte_buf_reserve(buffer, n)")
+        if k == "CompoundStmt":
+            m = dict(n)
+            m["inner"] = [rw(c) for c in n.get("inner", []) if c.get("kind") != "NullStmt"]
+            return m
+        m = dict(n)
+        if "inner" in n:
+            m["inner"] = [rw(c) if isinstance(c, dict) else c for c in n["inner"]]
+        return m
+    nb = rw(_body(fn))
+    if not reserves:
+        raise GenError("aws_byte_buf_reserve_smart no longer ends in aws_byte_buf_reserve(buffer, n)")
+    _no_ref(nb, "buffer", "aws_byte_buf_reserve_smart")
+    node = {"kind": "FunctionDecl", "name": "aws_byte_buf_reserve_smart", "type": {"qualType": "size_t (void)"},
+            "inner": [{"kind": "ParmVarDecl", "name": "capacity", "type": dict(SZ)}] + [p for p in _params(fn) if p["name"] != "buffer"] + [nb]}
+    info, texts = {}, []
+    for nm in ("aws_add_u64_saturating", "aws_add_size_saturating", "aws_max_size", "aws_min_size"):
+        if nm in fns:
+            t, i = cfun.FnTranslator(fns[nm], nm, lambda c: info.get(c), {}, fuel=4).translate()
+            info[nm] = (nm, i)
+            texts.append(t)
+    t, _ = cfun.FnTranslator(_unsign_shifts(node), "reserveSmartCap", lambda c: info.get(c), {}, fuel=4).translate()
+    rel = fns.get("aws_byte_buf_reserve_smart_relative")
+    if rel is None:
+        raise GenError("aws_byte_buf_reserve_smart_relative not found in byte_buf.c")
+    return "\n".join(texts) + "\n/-- `aws_byte_buf_reserve_smart`: capacity of the buffer afterwards (see gen/cbor_gen.py) -/\n" + t, _render(_body(rel))
+
+
 # ---------------------------------------------------------------------------------------------- small accessors
 def _render(n):
     """compact C-like rendering of a statement / expression tree (casts and parentheses dropped): the *shape* of a
@@ -829,6 +909,9 @@ def generate(repo, cfg_inc):
         if nm not in acc:
             raise GenError(f"{nm} not found in cbor.c")
         rows_acc.append((nm, _render(_body(acc[nm]))))
+    rs_text, rel_body = reserve_smart_function(repo, inc)
+    rows_acc.append(("aws_byte_buf_reserve_smart_relative", rel_body))
+    out.append(rs_text)
     out.append("/-- bodies of the bookkeeping functions of cbor.c (casts / parentheses dropped) -/")
     out.append("def accessorBodies : List (String × String) := [\n" + ",\n".join(f"  ({_s(a)}, {_s(b)})" for a, b in rows_acc) + "]\n")
     # the callback table handed to libcbor
